@@ -509,6 +509,19 @@ func TestC15_Histories(t *testing.T) {
 		for k := range classes {
 			cls = append(cls, "input:"+k)
 		}
+		has := map[string]bool{}
+		for _, st := range c.Steps {
+			has["has:"+st.Kind] = true
+			if st.ByVal && st.Slot >= 0 && st.Kind[0] == 'p' {
+				has["has:reuse-by-value-copy"] = true
+			}
+			if st.NoOpt && st.Kind[0] == 'p' {
+				has["has:call-without-options"] = true
+			}
+		}
+		for k := range has {
+			cls = append(cls, k)
+		}
 		cl.Eval(failThenReuse || transitions, evidHash(b), cls...)
 		cl.Sample(func() interface{} {
 			var s []string
